@@ -13,6 +13,7 @@ package serf
 import (
 	"errors"
 	"io"
+	"net"
 	"os"
 	"time"
 )
@@ -26,6 +27,16 @@ type vfHandle struct {
 }
 
 type vfCrash struct{}
+
+// The model's own error values (package os's error variables are not initialised
+// under the engine, so os.IsNotExist is redirected to vfIsNotExist).
+var (
+	vfErrNotExist = errors.New("file does not exist")
+	vfErrClosed   = errors.New("file already closed")
+	vfErrInvalid  = errors.New("invalid argument")
+)
+
+func vfIsNotExist(err error) bool { return err == vfErrNotExist }
 
 var (
 	vfDir     map[string]*vfInode
@@ -63,7 +74,7 @@ func vfOpenFile(name string, flag int, perm os.FileMode) (*os.File, error) {
 	ino := vfDir[name]
 	if ino == nil {
 		if flag&os.O_CREATE == 0 {
-			return nil, os.ErrNotExist
+			return nil, vfErrNotExist
 		}
 		ino = &vfInode{}
 		vfDir[name] = ino
@@ -81,7 +92,7 @@ func vfRemove(name string) error {
 		return err
 	}
 	if vfDir[name] == nil {
-		return os.ErrNotExist
+		return vfErrNotExist
 	}
 	delete(vfDir, name)
 	return nil
@@ -93,7 +104,7 @@ func vfRename(oldpath, newpath string) error {
 	}
 	ino := vfDir[oldpath]
 	if ino == nil {
-		return os.ErrNotExist
+		return vfErrNotExist
 	}
 	vfDir[newpath] = ino
 	delete(vfDir, oldpath)
@@ -102,11 +113,11 @@ func vfRename(oldpath, newpath string) error {
 
 func vfHandleOf(f *os.File) (*vfHandle, error) {
 	if f == nil {
-		return nil, os.ErrInvalid
+		return nil, vfErrInvalid
 	}
 	h := vfHandles[f]
 	if h == nil || h.closed {
-		return nil, os.ErrClosed
+		return nil, vfErrClosed
 	}
 	return h, nil
 }
@@ -201,7 +212,7 @@ func vfFileBytes(name string) ([]byte, bool) {
 func vfStat(name string) (os.FileInfo, error) {
 	ino := vfDir[name]
 	if ino == nil {
-		return nil, os.ErrNotExist
+		return nil, vfErrNotExist
 	}
 	return vfFInfo{size: int64(len(ino.data))}, nil
 }
@@ -226,3 +237,63 @@ func vfRunUntilCrash(f func()) (crashed bool) {
 	f()
 	return false
 }
+
+// ---- snapshotter construction shared by C10-C13 --------------------------------
+
+const vfSnapPath = "/snap/local.snapshot"
+
+var vfAddrs = [2]net.IP{{10, 0, 0, 1}, {10, 0, 0, 2}}
+
+// vfSnapOpen opens a snapshotter through the real constructor.
+func vfSnapOpen(minCompact int, rejoin bool, clock *LamportClock) *Snapshotter {
+	_, snap, err := NewSnapshotter(vfSnapPath, minCompact, rejoin, nil, clock, nil, make(chan struct{}))
+	vfAssert("snap.open.ok", err == nil && snap != nil)
+	return snap
+}
+
+// vfSnapArbitrary: a snapshotter whose memory holds an arbitrary state (0..2 alive
+// nodes with symbolic 1-byte names, symbolic clocks) and whose file is what the
+// real compaction writes for that state.
+func vfSnapArbitrary(clock *LamportClock, rejoin bool) *Snapshotter {
+	s := vfSnapOpen(vfInt("minCompact"), rejoin, clock)
+	for i := 0; i < 2; i++ {
+		if vfBool("alive") {
+			name := string(vfFixedBytes("name", 1))
+			s.aliveNodes[name] = (&net.TCPAddr{IP: vfAddrs[i], Port: 7946}).String()
+		}
+	}
+	s.lastClock = LamportTime(vfU64("lastClock"))
+	s.lastEventClock = LamportTime(vfU64("lastEventClock"))
+	s.lastQueryClock = LamportTime(vfU64("lastQueryClock"))
+	vfAssert("snap.canonical.compact.ok", s.compact() == nil)
+	return s
+}
+
+func vfSameNodes(got []*PreviousNode, want map[string]string) bool {
+	ok := len(got) == len(want)
+	for _, n := range got {
+		a, has := want[n.Name]
+		ok = vfAnd(ok, has)
+		if has {
+			ok = vfAnd(ok, a == n.Addr)
+		}
+	}
+	return ok
+}
+
+// vfSnapRestartMatches restarts from the file and compares with memory.
+func vfSnapRestartMatches(s *Snapshotter, pfx string) {
+	mem := map[string]string{}
+	for k, v := range s.aliveNodes {
+		mem[k] = v
+	}
+	lc, le, lq := s.lastClock, s.lastEventClock, s.lastQueryClock
+	var c2 LamportClock
+	r := vfSnapOpen(1<<30, false, &c2)
+	vfReach(pfx + ".restarted")
+	vfAssert(pfx+".nodes", vfSameNodes(r.AliveNodes(), mem))
+	vfAssert(pfx+".clock", r.LastClock() == lc)
+	vfAssert(pfx+".event.clock", r.LastEventClock() == le)
+	vfAssert(pfx+".query.clock", r.LastQueryClock() == lq)
+}
+
